@@ -458,6 +458,52 @@ def _ctor_options_stream(ctx, n, nprng):
             ctx.violation('ctor-options:derived-tables-raise', 'pointG/Wyckoff inspection raises %r' % (e,), rp)
 
 
+def _near_symmetric_stream(ctx, n, nprng):
+    """crystals deformed by a homogeneous strain whose relative amplitude is ABOVE the stated threshold (10 x threshold ...)
+    but below 1e-5: every reported operation must still be a self-isometry of the lattice metric within the crystal's own
+    threshold (absolute tolerance threshold x safety, no hidden relative tolerance)."""
+    rng = ctx.rng
+    pool = [x for x in X.zoo() if x.spins is None and len(X.holohedry(x.g)) >= 8]
+    safety = 20.0
+    for k in range(n):
+        xc = pool[k % len(pool)] if k < 2 * len(pool) else X.random_xc(rng, nprng, maxatoms=4, redescribe=0.0, spins_prob=0.0)
+        if k == 0: xc = next(x for x in pool if x.name == 'FCC')
+        d = xc.d
+        try:
+            c0 = X.build(xc)
+        except Exception:
+            continue
+        thr = c0.threshold
+        amp = 10 ** rng.uniform(np.log10(30 * thr), -5.3)          # between 30 x threshold and 5e-6
+        E = nprng.uniform(-1, 1, size=(d, d)); E = 0.5 * (E + E.T); E /= np.abs(E).max()
+        if k == 0 and d == 3: amp, E = 1e-6, np.array([[1, .3, .2], [.3, -.5, .1], [.2, .1, .7]])
+        try:
+            c1 = c0.strain(amp * E)
+        except (ArithmeticError, RecursionError):
+            continue
+        except Exception as e:
+            ctx.violation('near-symmetric:strain-raises:%s' % type(e).__name__, 'strain raises %r' % (e,), _replay(xc, {}, dict(strain=(amp * E).tolist())))
+            continue
+        ctx.count('near-symmetric-stream')
+        ctx.case(('nearsym', xc.key(), k), nontrivial=len(c0.G) > 2)
+        g = c1.lattice.T @ c1.lattice
+        scale = np.abs(g).max()
+        worst, nbad = 0.0, 0
+        for op in c1.G:
+            R = np.array(op.rot)
+            mm = np.abs(R.T @ g @ R - g).max()
+            if mm > safety * c1.threshold * max(1.0, scale):
+                nbad += 1; worst = max(worst, mm)
+        rp = _replay(xc, {}, dict(strain=(amp * E).tolist(), strain_amplitude=amp, threshold=c1.threshold, nops_unstrained=len(c0.G), nops=len(c1.G),
+                                  how='c = c18lib.build(crystal); c.strain(np.array(strain)).G'))
+        if nbad:
+            ctx.violation('near-symmetric:metric-mismatch-above-threshold',
+                          '%s strained by %.1e (threshold %g): %d of the %d reported operations are not self-isometries of the lattice metric: '
+                          '|R^T g R - g| up to %.2e' % (xc.name, amp, c1.threshold, nbad, len(c1.G), worst), rp)
+        for sig, what in (X.oracle_ops(c1, tol=safety * c1.threshold) + X.oracle_group(c1, tol=1e-6))[:2]:
+            ctx.violation('near-symmetric:' + sig, '%s strained by %.1e: %s' % (xc.name, amp, what), rp)
+
+
 def _noreduce_stream(ctx, n, nprng):
     """noreduce=True on deliberately non-reduced cell descriptions (float oracles)"""
     rng = ctx.rng
@@ -510,6 +556,7 @@ def run(ctx):
     _noise_stream(ctx, 12 if ctx.quick else 150, nprng)
     _vector_spin_stream(ctx, 40 if ctx.quick else 600, nprng)
     _ctor_options_stream(ctx, 48 if ctx.quick else 600, nprng)
+    _near_symmetric_stream(ctx, 36 if ctx.quick else 400, nprng)
 
 
 def search(ctx, reasons):
